@@ -1013,9 +1013,35 @@ func c15History(h *vHarness, r *vRand, deep bool) {
 					h.Fail("C15:assumption-not-root-add", "main stream generated a create request named root")
 				}
 				g.shapes(sp, rp)
-				h.Op("%s", c15OpLine("add", sp, cl))
+				// 1/3 of the creates pass the mutating admission (fillQuotaDefaultInformation) first, as in the real webhook chain
+				viaFill := r.Chance(1, 3)
+				if viaFill {
+					h.Tag("add:via-mutating")
+					if g.trees && r.Bool() {
+						sp.tree = 0 // leave the tree id to the mutating step (inherited from the parent)
+					}
+					h.Op("%s", c15OpLine("madd", sp, cl))
+				} else {
+					h.Op("%s", c15OpLine("add", sp, cl))
+				}
 				obj := c15Object(sp)
-				panicked = h.Guard(func() { err = qt.ValidAddQuota(obj) })
+				panicked = h.Guard(func() {
+					if viaFill {
+						if err = qt.fillQuotaDefaultInformation(obj); err != nil {
+							h.Tag("add:denied-by-mutating")
+							return
+						}
+					}
+					err = qt.ValidAddQuota(obj)
+				})
+				if viaFill && !panicked && err == nil {
+					// the accepted API object is the mutated one: parent label written out, tree id inherited from the parent
+					sp.parentShape = 0
+					if t := c15TreeID(obj.Labels[extension.LabelQuotaTreeID]); t != sp.tree {
+						h.Tag("add:tree-id-inherited")
+						sp.tree = t
+					}
+				}
 			case "upd":
 				if old != nil {
 					sp = g.mutate(old)
